@@ -87,9 +87,16 @@ func (s *c04Stream) foldBombs(all bool) {
 		}
 	}
 	// the other generators: host bombs at the positions their grammar has
-	for _, gen := range []string{"float", "bool", "empty", "lastunary"} {
+	gens := []string{"float", "bool", "empty", "lastunary"}
+	if !all {
+		gens = gens[:2]
+	}
+	for _, gen := range gens {
 		for _, b := range []string{"ppanic(1)", "perr(1)", "ppanic(a)", "sin(ppanic(1))", "-ppanic(1)", "1+ppanic(2)", "ppanic(1)+a", "ppanic(ppanic(1))", "true&ppanic(true)", "!ppanic(true)"} {
-			for _, w := range []string{"_", "(_)", "a+_", "sin(_)", "_=1"} {
+			for wi, w := range []string{"_", "(_)", "a+_", "sin(_)", "_=1"} {
+				if !all && wi%2 == 1 {
+					continue
+				}
 				for _, noopt := range []bool{false, true} {
 					add(gen, noopt, strings.Replace(w, "_", b, 1), false)
 				}
